@@ -1,6 +1,6 @@
 (* C08 - the evolvent is a continuous (Hoelder) space-filling curve. Only statements; proofs live in Evolvent/. *)
-From Coq Require Import ZArith QArith List Lia.
-From IOptV Require Import Evolvent.Ev Evolvent.Adj Evolvent.Bij Evolvent.Curve Evolvent.Image Evolvent.Holder Evolvent.Dims Evolvent.Bridge.
+From Coq Require Import ZArith QArith Qreals Reals List Lia Lra.
+From IOptV Require Import Evolvent.Ev Evolvent.Adj Evolvent.Bij Evolvent.Curve Evolvent.Image Evolvent.Holder Evolvent.Dims Evolvent.Bridge Evolvent.HolderReal Evolvent.HolderImage.
 Import ListNotations.
 Open Scope Z_scope.
 
@@ -39,6 +39,20 @@ Theorem C08_holder_cells_close : forall n m k i j, dim_ok n -> (k <= m)%nat -> 0
   sumsq (cellI n m i) (cellI n m j) < (Z.of_nat n + 3) * 4 ^ Z.of_nat (m - k).
 Proof. intros n m k i j H. apply (holder_cells_close n (all_ok_dim n H)). unfold dim_ok in H. lia. Qed.
 Print Assumptions C08_holder_cells_close.
+
+(* the inequality itself, for the images of any two points of [0,1] at least one subinterval apart, any box, any density:
+   ||y(x') - y(x'')||_2 <= 2 sqrt(N+3) |x' - x''|^(1/N) * S, S bounding the box sides *)
+Theorem C08_holder_inequality : forall n m lo hi S x x', dim_ok n -> (1 <= m)%nat -> length lo = n -> length hi = n -> (0 <= S)%Q ->
+  Forall2 (fun l h => l < h /\ h - l <= S)%Q lo hi -> (0 <= x)%Q -> (x <= 1)%Q -> (0 <= x')%Q -> (x' <= 1)%Q ->
+  (/ 2 ^ (n * m) <= Rabs (Q2R x - Q2R x'))%R ->
+  (sqrt (Q2R (qdist2 (image n m lo hi x) (image n m lo hi x'))) <= 2 * sqrt (INR n + 3) * Rpower (Rabs (Q2R x - Q2R x')) (/ INR n) * Q2R S)%R.
+Proof.
+  intros n m lo hi S x x' H Hm L1 L2 HS F X0 X1 X0' X1' Hq.
+  apply (holder_image n (all_ok_dim n H) ltac:(unfold dim_ok in H; lia) m lo hi S x x'); try assumption.
+  rewrite IZR_B. assert (P : (0 < 2 ^ (n * m))%R) by (apply pow_lt; lra).
+  apply (Rmult_le_compat_r (2 ^ (n * m))) in Hq; [|lra]. rewrite Rinv_l in Hq by lra. exact Hq.
+Qed.
+Print Assumptions C08_holder_inequality.
 
 Theorem C08_tie_generated_node : forallb node_agrees [2; 3; 4; 5]%nat = true.
 Proof. exact gen_node_is_node. Qed.
